@@ -304,21 +304,20 @@ where
     /// Read the 'card specific data' block.
     fn read_csd(&mut self) -> Result<Csd, Error> {
         match self.card_type {
-            Some(CardType::SD1) => {
-                let mut csd = CsdV1::new();
+            Some(CardType::SD1 | CardType::SD2 | CardType::SDHC) => {
+                let mut data = [0u8; 16];
                 if self.card_command(CMD9, 0)? != 0 {
                     return Err(Error::RegisterReadError);
                 }
-                self.read_data(&mut csd.data)?;
-                Ok(Csd::V1(csd))
-            }
-            Some(CardType::SD2 | CardType::SDHC) => {
-                let mut csd = CsdV2::new();
-                if self.card_command(CMD9, 0)? != 0 {
-                    return Err(Error::RegisterReadError);
+                self.read_data(&mut data)?;
+                // The register says which layout it has (CSD_STRUCTURE, top
+                // two bits) - a version 2 Standard Capacity card still uses
+                // the version 1 layout.
+                match data[0] >> 6 {
+                    0 => Ok(Csd::V1(CsdV1 { data })),
+                    1 => Ok(Csd::V2(CsdV2 { data })),
+                    _ => Err(Error::RegisterReadError),
                 }
-                self.read_data(&mut csd.data)?;
-                Ok(Csd::V2(csd))
             }
             None => Err(Error::CardNotFound),
         }
